@@ -306,6 +306,13 @@ def gen_request(draw, users, objs, pnames, pols):
         if val is None:
             val = _pool_value(draw, attr, objs, pnames)
         filters.append([attr, _jsonable_value(attr, val)])
+    if draw(st.integers(0, 7)) == 0:
+        # filters no stored object can satisfy: a custom attribute (the server stores none) and
+        # usage-mask bits that no object was registered with (vendor-extension bits)
+        filters.append(draw(st.sampled_from([["x-project", "apollo"], ["y-owner-team", "blue"],
+                                             ["Cryptographic Usage Mask", 0x01000000],
+                                             ["Cryptographic Usage Mask", 0x01000004],
+                                             ["Cryptographic Usage Mask", 0x40000000]])))
     filters = draw(st.permutations(filters))
     rng = list(range(0, n + 2)) + [None, None]
     pages = []
@@ -589,6 +596,8 @@ def match_one(m, name, val, flags=()):
         if "sens" in flags:
             return False
         return m["sens"] == val
+    if name.startswith(("x-", "y-")):
+        return False            # the server cannot store custom attributes: no object has one
     raise ValueError("no model for filter %r" % name)
 
 
@@ -719,6 +728,9 @@ def judge_request(srv, pols, model, req):
             return out
         if conflicting_singletons(filters):
             out["classes"].append("dontcare:conflicting-singletons:rejected")
+            return out
+        if any(n.startswith(("x-", "y-")) for n in names):
+            out["classes"].append("dontcare:custom-attribute-filter:rejected")
             return out
         B.append(("C14|locate-failed|%s" % r1["reason"],
                   "request %r -> %r" % (req, {k: r1[k] for k in ("status", "reason", "message")})))
